@@ -45,7 +45,10 @@ type Req struct {
 }
 
 type Step struct {
-	Kind   string `json:"kind"` // send | release | sleep | tick | nearexpire | expire
+	Kind   string `json:"kind"` // send | release | sleep | tick | nearexpire | expire | flood
+	// (flood: the peer sends Copies further confirmable requests with message IDs of their own that
+	// the handler merely acknowledges - the traffic of a busy, long-lived connection between the
+	// examined requests and their retransmissions)
 	Req    int    `json:"req"`
 	Copies int    `json:"copies,omitempty"`
 	Ms     int    `json:"ms,omitempty"`
@@ -249,6 +252,7 @@ func Exec(t *testing.T, sc Scenario, shard int, r *evid.Run) (fail *evid.Failure
 			bubble.Wait()
 		}
 		first := map[int]time.Duration{}
+		floods := 0
 		lastServerMID := -1
 		peerMIDs := map[int]bool{}
 		for _, q := range sc.Reqs {
@@ -312,6 +316,22 @@ func Exec(t *testing.T, sc Scenario, shard int, r *evid.Run) (fail *evid.Failure
 					}
 					copies = append(copies, copyRec{time.Since(start), j})
 					link.A.Inject(d)
+				}
+				settle()
+			case "flood":
+				for j := range gates {
+					if _, seen := first[j]; seen {
+						release(j) // (a held handler occupies the receive loop: the flood would only queue up behind it)
+					}
+				}
+				drain()
+				for k := 0; k < st.Copies; k++ {
+					link.A.Inject(peer.Datagram(refcodec.Msg{Type: peer.CON, MID: 45000 + floods, Code: 2, Token: []byte{0xF1, byte(floods >> 8), byte(floods)},
+						Opts: peer.PathOpts("flood"), Payload: []byte{0xC5, 0xFF, 0}}))
+					floods++
+					if k%64 == 63 {
+						settle()
+					}
 				}
 				settle()
 			case "release":
@@ -556,6 +576,10 @@ func gen(t *rapid.T) Scenario {
 			sc.Steps = append(sc.Steps, Step{Kind: "send", Req: j, Copies: rapid.SampledFrom([]int{1, 1, 2, 3}).Draw(t, "copies")})
 			sent[j] = true
 		case 6:
+			if rapid.IntRange(0, 19).Draw(t, "flood") == 0 {
+				sc.Steps = append(sc.Steps, Step{Kind: "flood", Copies: rapid.SampledFrom([]int{50, 300, 1200, 3000}).Draw(t, "nflood")})
+				continue
+			}
 			sc.Steps = append(sc.Steps, Step{Kind: "sleep", Ms: rapid.SampledFrom([]int{1, 50, 2000, 30000}).Draw(t, "ms")})
 		case 7:
 			sc.Steps = append(sc.Steps, Step{Kind: "tick"})
